@@ -103,14 +103,15 @@ Section Cache.
   (* ---------------------------------------------------------------- *)
   (* invariant                                                         *)
   (* ---------------------------------------------------------------- *)
-  Record inv (s: state) : Prop := {
+  (* sup c: class c enables ADD_DIALECT_SUPPORT (only such classes get caches and take a dialect) *)
+  Record inv (sup: nat -> bool) (s: state) : Prop := {
     inv_entries : forall c l k m, c_cache (s c) = Some l -> e_get l k = Some m -> m = compile c (Some k);
     inv_default : forall c m, c_default (s c) = Some m -> m = compile c None;
-    inv_own     : forall c, c_default (s c) <> None -> c_cache (s c) <> None
+    inv_own     : forall c, sup c = true -> c_default (s c) <> None -> c_cache (s c) <> None
   }.
 
-  Lemma inv_init : inv init.
-  Proof. split; cbn; intros; try discriminate. contradiction. Qed.
+  Lemma inv_init sup : inv sup init.
+  Proof. split; cbn; intros; try discriminate. exfalso; auto. Qed.
 
   Lemma e_get_set_same l k v : e_get (e_set l k v) k = Some v.
   Proof.
@@ -141,19 +142,19 @@ Section Cache.
   Lemma ensure_own_noop s c : c_cache (s c) <> None -> ensure_cache true s c = s.
   Proof. unfold ensure_cache. destruct (c_cache (s c)); [reflexivity|contradiction]. Qed.
 
-  Lemma ensure_own_inv s c : inv s -> inv (ensure_cache true s c).
+  Lemma ensure_own_inv sup s c : inv sup s -> inv sup (ensure_cache true s c).
   Proof.
     intros I. unfold ensure_cache. destruct (c_cache (s c)) eqn:E; [exact I|].
     split.
     - intros x l k m Hc Hg. destruct (Nat.eq_dec x c) as [->|N].
       + rewrite upd_same in Hc. cbn in Hc. injection Hc as <-. discriminate.
-      + rewrite upd_other in Hc by exact N. eapply inv_entries; eassumption.
+      + rewrite upd_other in Hc by exact N. eapply (inv_entries sup); eassumption.
     - intros x m Hd. destruct (Nat.eq_dec x c) as [->|N].
-      + rewrite upd_same in Hd. cbn in Hd. eapply inv_default; eassumption.
-      + rewrite upd_other in Hd by exact N. eapply inv_default; eassumption.
-    - intros x Hd. destruct (Nat.eq_dec x c) as [->|N].
+      + rewrite upd_same in Hd. cbn in Hd. eapply (inv_default sup); eassumption.
+      + rewrite upd_other in Hd by exact N. eapply (inv_default sup); eassumption.
+    - intros x Hs Hd. destruct (Nat.eq_dec x c) as [->|N].
       + rewrite upd_same. cbn. discriminate.
-      + rewrite upd_other in * by exact N. apply (inv_own s I). exact Hd.
+      + rewrite upd_other in * by exact N. apply (inv_own sup s I); assumption.
   Qed.
 
   Lemma ensure_own_has s c : c_cache (ensure_cache true s c c) <> None.
@@ -163,25 +164,28 @@ Section Cache.
     - rewrite upd_same. cbn. discriminate.
   Qed.
 
-  Lemma step_inv s o : inv s -> inv (fst (step true s o)).
+  Definition op_ok (sup: nat -> bool) (o: op) : Prop :=
+    match o with Call c (Some _) => sup c = true | _ => True end.
+
+  Lemma step_inv sup s o : inv sup s -> op_ok sup o -> inv sup (fst (step true s o)).
   Proof.
-    intros I. destruct o as [c|c [k|]]; cbn [step fst].
+    intros I OK. destruct o as [c|c [k|]]; cbn [step fst].
     - (* Define *)
-      pose proof (ensure_own_inv s c I) as I1. pose proof (ensure_own_has s c) as H1.
+      pose proof (ensure_own_inv sup s c I) as I1. pose proof (ensure_own_has s c) as H1.
       set (s1 := ensure_cache true s c) in *.
       split.
       + intros x l k m Hc Hg. destruct (Nat.eq_dec x c) as [->|N].
-        * rewrite upd_same in Hc. cbn in Hc. eapply (inv_entries s1 I1); eassumption.
-        * rewrite upd_other in Hc by exact N. eapply (inv_entries s1 I1); eassumption.
+        * rewrite upd_same in Hc. cbn in Hc. eapply (inv_entries sup s1 I1); eassumption.
+        * rewrite upd_other in Hc by exact N. eapply (inv_entries sup s1 I1); eassumption.
       + intros x m Hd. destruct (Nat.eq_dec x c) as [->|N].
         * rewrite upd_same in Hd. cbn in Hd. injection Hd as <-. reflexivity.
-        * rewrite upd_other in Hd by exact N. eapply (inv_default s1 I1); eassumption.
-      + intros x Hd. destruct (Nat.eq_dec x c) as [->|N].
+        * rewrite upd_other in Hd by exact N. eapply (inv_default sup s1 I1); eassumption.
+      + intros x Hs Hd. destruct (Nat.eq_dec x c) as [->|N].
         * rewrite upd_same. cbn. exact H1.
-        * rewrite upd_other in * by exact N. apply (inv_own s1 I1). exact Hd.
+        * rewrite upd_other in * by exact N. apply (inv_own sup s1 I1); assumption.
     - (* Call with a dialect *)
       destruct (c_default (s c)) eqn:Ed; [|exact I].
-      assert (Hown: c_cache (s c) <> None) by (apply (inv_own s I); rewrite Ed; discriminate).
+      assert (Hown: c_cache (s c) <> None) by (apply (inv_own sup s I); [assumption|rewrite Ed; discriminate]).
       rewrite (holder_own s c Hown).
       destruct (e_get (cache_of s c) k) eqn:Eg; [exact I|]. cbn [fst].
       rewrite (ensure_own_noop s c Hown). unfold cache_put. rewrite (holder_own s c Hown).
@@ -192,33 +196,33 @@ Section Cache.
           -- rewrite e_get_set_same in Hg. injection Hg as <-. reflexivity.
           -- rewrite e_get_set_other in Hg by exact NK. unfold cache_of in Hg.
              destruct (c_cache (s c)) eqn:Ec; [|discriminate].
-             eapply (inv_entries s I); eassumption.
-        * rewrite upd_other in Hc by exact N. eapply (inv_entries s I); eassumption.
+             eapply (inv_entries sup s I); eassumption.
+        * rewrite upd_other in Hc by exact N. eapply (inv_entries sup s I); eassumption.
       + intros x m Hd. destruct (Nat.eq_dec x c) as [->|N].
-        * rewrite upd_same in Hd. cbn in Hd. eapply (inv_default s I); eassumption.
-        * rewrite upd_other in Hd by exact N. eapply (inv_default s I); eassumption.
-      + intros x Hd. destruct (Nat.eq_dec x c) as [->|N].
+        * rewrite upd_same in Hd. cbn in Hd. eapply (inv_default sup s I); eassumption.
+        * rewrite upd_other in Hd by exact N. eapply (inv_default sup s I); eassumption.
+      + intros x Hs Hd. destruct (Nat.eq_dec x c) as [->|N].
         * rewrite upd_same. cbn. discriminate.
-        * rewrite upd_other in * by exact N. apply (inv_own s I). exact Hd.
+        * rewrite upd_other in * by exact N. apply (inv_own sup s I); assumption.
     - exact I.
   Qed.
 
   (* a call on a defined class returns exactly the fresh compile for (class, dialect) *)
-  Lemma step_out s c d : inv s -> c_default (s c) <> None ->
+  Lemma step_out sup s c d : inv sup s -> c_default (s c) <> None -> op_ok sup (Call c d) ->
     snd (step true s (Call c d)) = Some (compile c d).
   Proof.
-    intros I Hd. destruct d as [k|]; cbn [step].
+    intros I Hd OK. destruct d as [k|]; cbn [step].
     - destruct (c_default (s c)) eqn:Ed; [|contradiction].
-      assert (Hown: c_cache (s c) <> None) by (apply (inv_own s I); rewrite Ed; discriminate).
+      assert (Hown: c_cache (s c) <> None) by (apply (inv_own sup s I); [assumption|rewrite Ed; discriminate]).
       rewrite (holder_own s c Hown).
       destruct (e_get (cache_of s c) k) eqn:Eg.
       + cbn [snd]. f_equal. unfold cache_of in Eg. destruct (c_cache (s c)) eqn:Ec; [|discriminate].
-        eapply (inv_entries s I); eassumption.
+        eapply (inv_entries sup s I); eassumption.
       + cbn [snd]. rewrite (ensure_own_noop s c Hown). unfold cache_put. rewrite (holder_own s c Hown).
         rewrite holder_own by (rewrite upd_same; cbn; discriminate).
         unfold cache_of at 1. rewrite upd_same. cbn. apply e_get_set_same.
     - cbn [snd]. destruct (c_default (s c)) eqn:Ed; [|contradiction].
-      f_equal. eapply (inv_default s I); eassumption.
+      f_equal. eapply (inv_default sup s I); eassumption.
   Qed.
 
   (* being defined is never undone *)
@@ -252,7 +256,11 @@ Section Cache.
                           snd (run own (fst (step own s o)) r)).
   Proof. cbn [run]. destruct (step own s o) as [s' out]. cbn [fst snd]. destruct (run own s' r). reflexivity. Qed.
 
-  Lemma isolation_from s : inv s ->
+  Definition all_sup : nat -> bool := fun _ => true.
+  Lemma op_ok_all o : op_ok all_sup o.
+  Proof. destruct o as [c|c [k|]]; cbn; auto. Qed.
+
+  Lemma isolation_from s : inv all_sup s ->
     forall ops i c d,
       nth_error ops i = Some (Call c d) ->
       (c_default (s c) <> None \/ In (Define c) (firstn i ops)) ->
@@ -262,8 +270,8 @@ Section Cache.
     - destruct i; discriminate.
     - unfold outs. rewrite run_cons. cbn [fst]. destruct i as [|i].
       + cbn in Hn. injection Hn as ->. cbn [nth_error]. f_equal.
-        apply step_out; [exact I|]. destruct Hdef as [H|[]]. exact H.
-      + cbn [nth_error] in *. apply (IH _ (step_inv s o I) i c d Hn).
+        apply (step_out all_sup); [exact I| |apply op_ok_all]. destruct Hdef as [H|[]]. exact H.
+      + cbn [nth_error] in *. apply (IH _ (step_inv all_sup s o I (op_ok_all o)) i c d Hn).
         destruct Hdef as [H|H].
         * left. apply step_defined. exact H.
         * cbn [firstn] in H. destruct H as [->|H]; [left; apply step_define_defined|right; exact H].
@@ -273,7 +281,7 @@ Section Cache.
     nth_error ops i = Some (Call c d) ->
     In (Define c) (firstn i ops) ->
     nth_error (outs true init ops) i = Some (Some (compile c d)).
-  Proof. intros. eapply isolation_from; [exact inv_init|eassumption|right; assumption]. Qed.
+  Proof. intros. eapply isolation_from; [exact (inv_init all_sup)|eassumption|right; assumption]. Qed.
 
   (* ---------------------------------------------------------------- *)
   (* C13_default_unaltered: calls (with any dialect, on any class) never change any   *)
